@@ -2,7 +2,7 @@
 
 META = {
     'level': 'exploration',
-    'rule': ('Random DAG specs with heavy identity duplication (each reference may be a fresh equal instance), '
+    'rule': ('(Plus, per shard, a seeded run/bust/uncache history over task types defined in a running script - module __main__, __mp_main__ in spawned workers - with its own plan model: executions counted through a log file.) Random DAG specs with heavy identity duplication (each reference may be a fresh equal instance), '
              'random pre-cached subsets (for DAGs of <= 6 tasks in the thorough tier: every subset), requested '
              'subsets, bust_cache, under sim/serial/fork; oracle = plan model (closure with cache cut-offs) against '
              'start events (multiset == executed set), recorded storage opens of data files (== loaded set), '
@@ -77,15 +77,45 @@ def exhaustive_subsets(rep, n_specs):
         rep.count('specs_with_all_cached_subsets')
 
 
+def mainscript_case(rep, backend, seed):
+    """Task types defined in the running script (__main__; __mp_main__ in a spawned worker): over a seeded history of
+    runs on a partially warm cache, exactly the tasks the plan model names are executed - cached ones are loaded."""
+    from vlab.mainscript_run import run_mainscript
+    wit = {'mainscript': [backend, seed]}
+    st, x = run_mainscript(backend, seed)
+    if st == 'timeout':
+        rep.inconclusive(f'main-script history ({backend}, seed {seed}): timed out', wit)
+        return
+    if st == 'failed':
+        rep.violation('script-tasks-run-failed', f'main-script history ({backend}): the script failed: {x}', wit)
+        return
+    rep.count('mainscript_histories')
+    rep.count('mainscript_executions_observed', x['obs']['executions'])
+    rep.case(['mainscript', backend, seed], sum(1 for o in x['obs']['ops'] if o[0] == 'run') >= 2)
+    for key, msg in x['bad']:
+        if key in ('executed-set-differs', 'entry-lost'):
+            rep.violation('unneeded-execution' if key == 'executed-set-differs' else 'executed-but-not-cached',
+                          f'task types defined in the main script ({backend}): {msg}', wit)
+            break
+
+
 def run_shard(rep):
     from vlab.props.dagprop import drive
     cfg = META['tiers'][rep.tier]
     rep.require('loads_observed', 100)
     rep.require('instances_checked', 500)
+    rep.require('mainscript_histories', 10)
+    for r in range(1 if rep.tier == 'quick' else 3):
+        mainscript_case(rep, ['spawn', 'fork', 'spawn', 'serial'][(rep.shard + r) % 4], rep.seed * 1000 + 500 + rep.shard * 10 + r)
     exhaustive_subsets(rep, cfg.get('n_exhaustive_specs', 16))
     drive(rep, 'C03', make_scn=make_scn, judge=judge, n_sim=cfg['n_sim'], n_real=cfg['n_real'])
 
 
 def replay(rep, wit):
     from vlab.props.dagprop import replay_with
+    if 'mainscript' in wit['witness']:
+        rep.case('a', True)
+        rep.case('b', True)
+        mainscript_case(rep, *wit['witness']['mainscript'])
+        return
     replay_with(rep, wit, judge)
